@@ -104,6 +104,7 @@ func (w *World) monitorAckTiming() {
 	var cur *held
 	ackCount := map[uint16]int{}
 	delivered := map[uint16]int{}
+	cycleDelivered := map[uint16]bool{} // QoS 2: a return since the last PUBCOMP for this identifier
 	sentIdx := 0
 	sent := w.sentPublishes()
 	_ = sent
@@ -133,6 +134,9 @@ func (w *World) monitorAckTiming() {
 				if in.Topic == string(topic) && (body == nil || bytes.Equal(in.Body, body)) && in.QoS > 0 {
 					cur = &held{id: in.ID, qos: in.QoS, since: i}
 					delivered[in.ID]++
+					if in.QoS == 2 {
+						cycleDelivered[in.ID] = true
+					}
 				}
 			}
 			_ = sentIdx
@@ -147,6 +151,14 @@ func (w *World) monitorAckTiming() {
 				n, err := splitPacket(b)
 				if err != nil {
 					break
+				}
+				if n == 4 && b[0] == tPUBCOMP<<4 {
+					delete(cycleDelivered, uint16(b[2])<<8|uint16(b[3])) // the cycle ends; the identifier may be reused
+				}
+				if n == 4 && b[0] == tPUBREC<<4 {
+					if id := uint16(b[2])<<8 | uint16(b[3]); !cycleDelivered[id] && delivered[id] > 0 && w.isQoS2Inbound(id) {
+						w.Violate("C07", "ack-without-delivery#cycle", "PUBREC %#04x written at step %d for a new delivery cycle whose message was never returned by ReadSlices (the previous cycle ended with PUBCOMP)", id, e.Step)
+					}
 				}
 				if n == 4 && (b[0] == tPUBACK<<4 || b[0] == tPUBREC<<4) {
 					id := uint16(b[2])<<8 | uint16(b[3])
@@ -188,6 +200,15 @@ func (w *World) monitorAckTiming() {
 	}
 }
 
+func (w *World) isQoS2Inbound(id uint16) bool {
+	for _, in := range w.scn.Inbound {
+		if in.QoS == 2 && in.ID == id {
+			return true
+		}
+	}
+	return false
+}
+
 // dupSuppressed reports whether a marker for id existed (an earlier
 // generation or cycle delivered it) before log index i.
 func (w *World) dupSuppressed(id uint16, i int) bool {
@@ -203,7 +224,37 @@ func (w *World) dupSuppressed(id uint16, i int) bool {
 func (w *World) monitorQoS2In() {
 	// per identifier: marker life cycle from the store log, returns from the ret events
 	markerSince := map[uint16]int{} // log index of the effective Save, -1 when none
+	pubrecAt := map[uint16]int{}    // step at which a PUBREC for the running cycle was handed to a connection
 	for i, e := range w.log {
+		if e.K == "write" && len(e.B) >= 4 {
+			for b := e.B; len(b) >= 4; {
+				n, err := splitPacket(b)
+				if err != nil {
+					break
+				}
+				id := uint16(b[n-2])<<8 | uint16(b[n-1])
+				switch {
+				case n == 4 && b[0] == tPUBREC<<4:
+					if _, ok := pubrecAt[id]; !ok {
+						pubrecAt[id] = e.Step
+					}
+				case n == 4 && b[0] == tPUBCOMP<<4:
+					delete(pubrecAt, id)
+				}
+				b = b[n:]
+			}
+		}
+		if e.K == "ret" && e.S == "rs" && e.R == "nil" && e.B != nil {
+			k := bytes.IndexByte(e.B, 0)
+			topic, body := e.B[:k], e.B[k+1:]
+			for _, in := range w.scn.Inbound {
+				if in.QoS == 2 && in.Topic == string(topic) && bytes.Equal(in.Body, body) {
+					if at, ok := pubrecAt[in.ID]; ok {
+						w.Violate("C04", "redelivery-after-pubrec", "QoS 2 message %#04x %q returned again at step %d although the client had written its PUBREC at step %d and no PUBREL ended the cycle", in.ID, in.Topic, e.Step, at)
+					}
+				}
+			}
+		}
 		switch {
 		case e.K == "store" && e.R == "" && e.N&(1<<16) != 0 && e.S == "save":
 			markerSince[uint16(e.N)] = i
